@@ -196,7 +196,7 @@ impl LogInnerManager {
             msg_count,
             current_index_count,
             need_seek_at_write: false,
-            split_off_index: std::cmp::max(split_off_index, start_index),
+            split_off_index: start_index,
         };
         if msg_count > 0 {
             let end_index = this.get_end_index();
@@ -206,6 +206,7 @@ impl LogInnerManager {
                 }
             }
         }
+        this.split_off_index = std::cmp::max(split_off_index, start_index);
         Ok(this)
     }
 
